@@ -102,6 +102,19 @@ def run(ctx, res):
                     p["bruttolohn_m"] = rnd.choice([0.0, 300.0, 700.0, 1000.0, 1300.0, 1600.0, 1900.0, 2200.0, 2600.0, 3200.0])
                     p["vermögen_bedürft"] = rnd.choice([0.0, 0.0, 3000.0, 20000.0])
                     p["arbeitsstunden_w"] = 0.0 if p["bruttolohn_m"] == 0 else 38.5
+            # flat shares: move some single adults into the dwelling of a family (several Bedarfsgemeinschaften in one household)
+            by_hh = {}
+            for p in pop:
+                by_hh.setdefault(p["hh_id"], []).append(p)
+            singles = [h for h, ms in by_hh.items() if len(ms) == 1 and not ms[0]["kind"]]
+            families = [h for h, ms in by_hh.items() if any(m["kind"] for m in ms)]
+            for h in singles[: len(singles) // 2 + 1]:
+                if families:
+                    fam = rnd.choice(families)
+                    by_hh[h][0]["hh_id"] = fam
+                    for k in popgen.HH_FIELDS:                      # household-level inputs are those of the dwelling
+                        by_hh[h][0][k] = by_hh[fam][0][k]
+                    by_hh[h][0]["bruttolohn_m"] = rnd.choice([0.0, 400.0, 900.0])
             df = popgen.to_frame(pop)
             try:
                 outp, _ = engine.simulate(df, o, targets=tg)
@@ -128,6 +141,13 @@ def run(ctx, res):
                 if kz > 0 and not (bool(outp["kinderzuschl_vorrang_bg"].iloc[i]) or bool(outp["wohngeld_kinderzuschl_vorrang_bg"].iloc[i])):
                     res.add_violation("kiz:need-not-covered", f"person {pid} on {impl.iso(o)} receives Kinderzuschlag although neither priority check says the need is covered: {row}",
                                       dict(kind="kiz", date=impl.iso(o), row=row), True)
+                # the Wohngeld part-household of a person is hh_id*100 + 1 exactly if a priority check of the own bg passed (Groupings.wthh_spec)
+                want = int(df["hh_id"].iloc[i]) * 100 + (1 if (bool(outp["wohngeld_vorrang_bg"].iloc[i]) or bool(outp["wohngeld_kinderzuschl_vorrang_bg"].iloc[i])) else 0)
+                if int(outp["wthh_id"].iloc[i]) != want:
+                    res.add_violation("wthh-spec", f"person {pid} on {impl.iso(o)}: wthh_id = {int(outp['wthh_id'].iloc[i])}, but hh_id = {int(df['hh_id'].iloc[i])}, "
+                                      f"wohngeld_vorrang_bg = {bool(outp['wohngeld_vorrang_bg'].iloc[i])}, wohngeld_kinderzuschl_vorrang_bg = "
+                                      f"{bool(outp['wohngeld_kinderzuschl_vorrang_bg'].iloc[i])} (expected {want})",
+                                      dict(kind="wthh-spec", date=impl.iso(o), row=row, household=df[df['hh_id'] == df['hh_id'].iloc[i]].to_dict('records')), True)
                 b, wt = int(outp["bg_id"].iloc[i]), int(outp["wthh_id"].iloc[i])
                 if bg2w.setdefault(b, wt) != wt:
                     res.add_violation("bg-split-across-wthh", f"members of Bedarfsgemeinschaft {b} on {impl.iso(o)} fall into different Wohngeld part-households {bg2w[b]} / {wt}",
@@ -138,13 +158,15 @@ def run(ctx, res):
         if not ob["ok"] and not any(v["found_input"] for v in res.violations):
             res.add_violation(f"obligation:{ob['name']}", f"obligation {ob['name']} no longer checks ({ob['what']}): {ob['err'][-200:]}",
                               dict(kind="obligation", obligation=ob["name"], what=ob["what"], err=ob["err"]), False)
+    if stats["populations"] == 0:
+        res.machinery_errors.append("C17: no generated population could be simulated: " + "; ".join(stats["skipped"][:2])[:300])
     res.evaluations += stats["persons"]
     res.distinct += stats["populations"]
     res.extra["engine"] = stats
     res.rule = ("generated populations (couples with children, single parents, pensioners, patchwork, self-sufficient children, three generations) with "
                 "wages swept 0..3200 and wealth across the exemption, at fixed and sampled date classes >= 2015: for every person ALG II>0 => "
                 "Wohngeld=0 and Kinderzuschlag=0; Grundsicherung>0 => the other three are 0; Kinderzuschlag>0 => a priority check says the need is "
-                "covered; all members of a bg share one wthh. The counters of persons with each benefit > 0 show the cases are non-vacuous. "
+                "covered; wthh_id = hh_id*100 + [a priority check of the own bg passed] (the specification proved for the model builder); all members of a bg share one wthh; single adults are moved into family dwellings (several bgs per household). The counters of persons with each benefit > 0 show the cases are non-vacuous. "
                 "distinct = populations.")
 
 
